@@ -279,11 +279,9 @@ func (r *Reader) traverseNode(n *html.Node, ctx *parseContext) {
 				}
 				// Check for nested lists
 				ctx.listLevel++
-				for c := n.FirstChild; c != nil; c = c.NextSibling {
-					if c.Type == html.ElementNode && (c.Data == "ul" || c.Data == "ol") {
-						r.traverseNode(c, ctx)
-					}
-				}
+				forEachNestedList(n, func(list *html.Node) {
+					r.traverseNode(list, ctx)
+				})
 				ctx.listLevel--
 			}
 			return
@@ -479,11 +477,9 @@ func (r *Reader) traverseNodeFiltered(n *html.Node, ctx *parseContext, elements 
 				}
 				// Check for nested lists
 				ctx.listLevel++
-				for c := n.FirstChild; c != nil; c = c.NextSibling {
-					if c.Type == html.ElementNode && (c.Data == "ul" || c.Data == "ol") {
-						r.traverseNodeFiltered(c, ctx, elements)
-					}
-				}
+				forEachNestedList(n, func(list *html.Node) {
+					r.traverseNodeFiltered(list, ctx, elements)
+				})
 				ctx.listLevel--
 			}
 			return
@@ -710,23 +706,55 @@ func getTextContentRecursive(n *html.Node, result *strings.Builder) {
 	}
 }
 
-// getDirectTextContent gets text content from a node, excluding nested block elements.
+// getDirectTextContent gets the text of a list item: everything inside it - inline
+// content and block children such as <p> or <div> (a "loose" list wraps each item's
+// text in a paragraph) - except nested lists, which become deeper items of their own
+// (see forEachNestedList), and tables.
 func getDirectTextContent(n *html.Node) string {
 	var result strings.Builder
-	for c := n.FirstChild; c != nil; c = c.NextSibling {
-		if c.Type == html.TextNode {
-			result.WriteString(c.Data)
-		} else if c.Type == html.ElementNode {
-			// Include inline elements, skip block elements
+	var walk func(n *html.Node)
+	walk = func(n *html.Node) {
+		for c := n.FirstChild; c != nil; c = c.NextSibling {
+			if c.Type == html.TextNode {
+				result.WriteString(c.Data)
+				continue
+			}
+			if c.Type != html.ElementNode || shouldSkipElement(c.Data) {
+				continue
+			}
 			switch c.Data {
-			case "ul", "ol", "div", "p", "table", "blockquote":
-				// Skip these - they're block elements
+			case "ul", "ol", "table":
+				// Not part of this item's own text
+			case "br":
+				result.WriteString("\n")
+			case "p", "div", "blockquote":
+				walk(c)
+				result.WriteString(" ")
 			default:
-				result.WriteString(getTextContent(c))
+				walk(c)
 			}
 		}
 	}
+	walk(n)
 	return strings.TrimSpace(result.String())
+}
+
+// forEachNestedList calls fn for every list nested in a list item, whether it is a
+// direct child of the item or wrapped in a block child; it does not look inside the
+// lists it finds.
+func forEachNestedList(n *html.Node, fn func(list *html.Node)) {
+	for c := n.FirstChild; c != nil; c = c.NextSibling {
+		if c.Type != html.ElementNode {
+			continue
+		}
+		if c.Data == "ul" || c.Data == "ol" {
+			fn(c)
+			continue
+		}
+		if c.Data != "table" {
+			forEachNestedList(c, fn)
+		}
+	}
 }
 
 // PageCount returns 1 (HTML documents are single-page).
